@@ -46,6 +46,7 @@ func runC13(c *Ctx, r *Report) {
 	c13Calendar(c, r)
 	c13NumberClass(c, r, "C13-f/number-class")
 	c13NaNOrder(c, r, "C13-b/nan-order")
+	c13BothDirections(c, r, "C13-d/both-directions")
 }
 
 func runC03(c *Ctx, r *Report) {
